@@ -31,6 +31,7 @@ type subWindow struct {
 
 func runC10(w *World) {
 	w.drawWeights()
+	w.drawNet(w.knob)
 	w.weights[akFault] = 0
 	w.weights[akTick] = 1
 	w.maxTick = 50 * time.Millisecond
